@@ -76,7 +76,7 @@ ALLOC_ENS = [
 
 UNIT = dict(
     name="core_trackers",
-    props=["C12", "C13", "C04", "C01"],
+    props=["C12", "C13", "C04", "C01", "C06", "C16", "C09"],
     implicit_props=["C12", "C13"],
     features=["allocator_api"],
     uses=["std::collections::HashMap", "vstd::std_specs::hash::*", "vstd::set_lib::*"],
@@ -140,6 +140,16 @@ UNIT = dict(
                    dict(after="FileStateTracker::inc_checkpoint_for_file(g, &path);",
                         text="            proof { lemma_flush_step(old(g).blocks@, old(g).files@, block_id, g.blocks@, g.files@, path); }")]),
         afn("get_next_available_block", requires=ALLOC_REQ, ensures=ALLOC_ENS),
+        afn("fast_forward", hints=[], rules=ALLOC_RULES[:3], sig_rules=[dict(pat=r"&self", repl="&mut self")], proof_prologue=None,
+            requires=[("", "!old(self).lock")],
+            ensures=[
+                ("C09,C06,C13:fast_forward_raises_the_next_block_id_to_the_requested_one_and_never_lowers_it",
+                 "final(self).next_block.id == (if next_id > old(self).next_block.id { next_id } else { old(self).next_block.id })"),
+                ("C09,C06:fast_forward_changes_nothing_but_the_id",
+                 "final(self).next_block.offset == old(self).next_block.offset && final(self).next_block.limit == old(self).next_block.limit && final(self).next_block.used == old(self).next_block.used"
+                 " && final(self).next_block.file_path == old(self).next_block.file_path && final(self).next_block.mmap == old(self).next_block.mmap"),
+                ("C04:alloc_releases_spin_lock_on_every_path", "!final(self).lock"),
+            ]),
         afn("alloc_block", requires=ALLOC_REQ,
             hints=[dict(before="        Ok(ret)\n    }", text="        proof { lemma_alloc_step(old(g).blocks@, old(g).files@, ret.id as usize, ret.file_path, g.blocks@, g.files@); }"),
                    dict(before="        let alloc_units = ", text="        proof { lemma_alloc_arith(want_bytes); }")],
